@@ -12,40 +12,77 @@ use sophia_turtle::serializer::nt::write_term;
 
 fn iri(s: String) -> SimpleTerm<'static> { SimpleTerm::Iri(IriRef::new_unchecked(s.into())) }
 
+fn shapes(n: usize) -> Vec<Vec<[SimpleTerm<'static>; 3]>> {
+    // three data shapes: distinct subjects+objects, distinct predicates, distinct subjects only
+    vec![
+        (0..n).map(|i| [iri(format!("x:s{}", i)), iri("x:p".into()), iri(format!("x:o{}", i))]).collect(),
+        (0..n).map(|i| [iri("x:s".into()), iri(format!("x:p{}", i)), iri("x:o".into())]).collect(),
+        (0..n).map(|i| [iri(format!("x:s{}", i)), iri("x:p".into()), iri("x:o".into())]).collect(),
+    ]
+}
+
 fn run(site: &str, n: usize) -> usize {
     let reject = |t: SimpleTerm| -> bool { let _ = t; false };
+    let mut total = 0;
     match site {
-        "spo" => {
-            let mut g = LightGraph::new();
-            for i in 0..n { g.insert(iri(format!("x:s{}", i)), iri("x:p".into()), iri("x:o".into())).unwrap(); }
-            g.triples_matching(reject, Any, Any).count()
+        "spo" | "bc" => {
+            for data in shapes(n) {
+                let (s0, p0, o0) = (data[0][0].clone(), data[0][1].clone(), data[0][2].clone());
+                let mut l = LightGraph::new();
+                let mut f = FastGraph::new();
+                for t in &data { l.insert(&t[0], &t[1], &t[2]).unwrap(); f.insert(&t[0], &t[1], &t[2]).unwrap(); }
+                macro_rules! q { ($g:expr) => {{
+                    total += $g.triples_matching(reject, Any, Any).count();
+                    total += $g.triples_matching(Any, reject, Any).count();
+                    total += $g.triples_matching(Any, Any, reject).count();
+                    total += $g.triples_matching([s0.clone()], reject, Any).count();
+                    total += $g.triples_matching([s0.clone()], Any, reject).count();
+                    total += $g.triples_matching(reject, [p0.clone()], Any).count();
+                    total += $g.triples_matching(Any, [p0.clone()], reject).count();
+                    total += $g.triples_matching(reject, Any, [o0.clone()]).count();
+                    total += $g.triples_matching(Any, reject, [o0.clone()]).count();
+                }}}
+                q!(l);
+                q!(f);
+            }
+            total
         }
-        "bc" => {
-            let mut g = FastGraph::new();
-            for i in 0..n { g.insert(iri("x:s".into()), iri(format!("x:p{}", i)), iri("x:o".into())).unwrap(); }
-            g.triples_matching([iri("x:s".into())], reject, Any).count()
-        }
-        "gspo" => {
-            let mut d = FastDataset::new();
-            for i in 0..n { d.insert(iri(format!("x:s{}", i)), iri("x:p".into()), iri("x:o".into()), None::<SimpleTerm>).unwrap(); }
-            d.quads_matching(reject, Any, Any, Any).count()
-        }
-        "bcd" => {
-            let mut d = FastDataset::new();
-            for i in 0..n { d.insert(iri("x:s".into()), iri(format!("x:p{}", i)), iri("x:o".into()), None::<SimpleTerm>).unwrap(); }
-            d.quads_matching([iri("x:s".into())], reject, Any, Any).count()
-        }
-        "cd" => {
-            let mut d = FastDataset::new();
-            for i in 0..n { d.insert(iri("x:s".into()), iri("x:p".into()), iri(format!("x:o{}", i)), None::<SimpleTerm>).unwrap(); }
-            d.quads_matching([iri("x:s".into())], [iri("x:p".into())], reject, Any).count()
+        "gspo" | "bcd" | "cd" => {
+            for data in shapes(n) {
+                let (s0, p0, o0) = (data[0][0].clone(), data[0][1].clone(), data[0][2].clone());
+                let mut d = FastDataset::new();
+                for t in &data { d.insert(&t[0], &t[1], &t[2], None::<SimpleTerm>).unwrap(); }
+                let dg = [None::<SimpleTerm>];
+                total += d.quads_matching(reject, Any, Any, Any).count();
+                total += d.quads_matching(Any, reject, Any, Any).count();
+                total += d.quads_matching(Any, Any, reject, Any).count();
+                total += d.quads_matching([s0.clone()], reject, Any, Any).count();
+                total += d.quads_matching([s0.clone()], Any, reject, Any).count();
+                total += d.quads_matching(reject, [p0.clone()], Any, Any).count();
+                total += d.quads_matching(Any, [p0.clone()], reject, Any).count();
+                total += d.quads_matching(reject, Any, [o0.clone()], Any).count();
+                total += d.quads_matching(Any, reject, [o0.clone()], Any).count();
+                total += d.quads_matching(reject, Any, Any, dg.clone()).count();
+                total += d.quads_matching(Any, reject, Any, dg.clone()).count();
+                total += d.quads_matching(Any, Any, reject, dg.clone()).count();
+                total += d.quads_matching([s0.clone()], [p0.clone()], reject, Any).count();
+                total += d.quads_matching([s0.clone()], reject, [o0.clone()], Any).count();
+                total += d.quads_matching(reject, [p0.clone()], [o0.clone()], Any).count();
+                total += d.quads_matching([s0.clone()], reject, Any, dg.clone()).count();
+                total += d.quads_matching(reject, [p0.clone()], Any, dg.clone()).count();
+                total += d.quads_matching(Any, reject, [o0.clone()], dg.clone()).count();
+            }
+            total
         }
         "esc" => {
-            let lex: String = std::iter::repeat('\n').take(n).collect();
-            let t = SimpleTerm::LiteralDatatype(lex.into(), IriRef::new_unchecked("x:d".into()));
-            let mut w = Vec::new();
-            write_term(&mut w, &t).unwrap();
-            w.len()
+            for ch in ['\n', '\r', '"', '\\'] {
+                let lex: String = std::iter::repeat(ch).take(n).collect();
+                let t = SimpleTerm::LiteralDatatype(lex.into(), IriRef::new_unchecked("x:d".into()));
+                let mut w = Vec::new();
+                write_term(&mut w, &t).unwrap();
+                total += w.len();
+            }
+            total
         }
         _ => panic!("unknown site"),
     }
@@ -53,7 +90,7 @@ fn run(site: &str, n: usize) -> usize {
 
 fn main() {
     let site = std::env::args().nth(1).unwrap();
-    let n: usize = std::env::args().nth(2).and_then(|s| s.parse().ok()).unwrap_or(300_000);
+    let n: usize = std::env::args().nth(2).and_then(|s| s.parse().ok()).unwrap_or(200_000);
     let s2 = site.clone();
     let h = std::thread::Builder::new().stack_size(2 * 1024 * 1024).spawn(move || run(&s2, n)).unwrap();
     let r = h.join().unwrap();
